@@ -43,6 +43,11 @@ def pick_len(rng, low, high):
     return max(low, min(high, rng.choice(choices)))
 
 
+def edge_int(rng, bits):
+    """Boundary-biased unsigned integer of the given width."""
+    return rng.choice([0, 1, 2 ** bits - 1, 2 ** (bits - 1), 2 ** (bits - 1) - 1, rng.getrandbits(bits), rng.getrandbits(bits)])
+
+
 def known_or_unknown(rng, enum_class, invalid_class, bits=16, unknown_rate=0.25):
     """(library item, numeric code)."""
     members = list(enum_class)
